@@ -42,27 +42,23 @@ theorem pumpEvents_prefix (isStream : Bool) (len : Nat) : ∀ (out acc : List (N
     · obtain ⟨j, hj⟩ := ih (acc ++ [(min (k + 1) len, e)]) (ccOf e cc)
       exact ⟨j + 1, by rw [hj]; simp⟩
 
-theorem pumpOutcome_done {x : List Byte} {out : List (Nat × Event)} {pos : Nat} {res : Except Err Val} {v : Val}
-    (h : pumpOutcome x out pos res = .done v) : res = .ok v ∧ ¬ pos < x.length := by
+theorem pumpOutcome_done {x : List Byte} {pos : Nat} {res : Except Err Val} {v : Val}
+    (h : pumpOutcome x pos res = .done v) : res = .ok v ∧ ¬ pos < x.length := by
   unfold pumpOutcome at h
   split at h
   · split at h
     · simp at h
-    · split at h
-      · simp at h
-      · rename_i hlt; simp only [Outcome.done.injEq] at h; subst h; exact ⟨rfl, hlt⟩
+    · rename_i hlt; simp only [Outcome.done.injEq] at h; subst h; exact ⟨rfl, hlt⟩
   · simp at h
   · simp at h
   · simp at h
 
-theorem pumpOutcome_raised {x : List Byte} {out : List (Nat × Event)} {pos : Nat} {res : Except Err Val}
-    {e : Err} {rem : List Byte} (h : pumpOutcome x out pos res = .raised e rem) :
+theorem pumpOutcome_raised {x : List Byte} {pos : Nat} {res : Except Err Val}
+    {e : Err} {rem : List Byte} (h : pumpOutcome x pos res = .raised e rem) :
     res = .error e ∧ rem = x.drop pos := by
   unfold pumpOutcome at h
   split at h
-  · split at h
-    · simp at h
-    · split at h <;> simp at h
+  · split at h <;> simp at h
   · simp at h
   · simp at h
   · simp only [Outcome.raised.injEq] at h; obtain ⟨rfl, rfl⟩ := h; exact ⟨rfl, rfl⟩
